@@ -172,24 +172,6 @@ def forbiddenHolds (rule : Option PartRule) (part : PartVal) : Bool :=
   | some (.oneOf l), .str s => !l.contains s
   | _, _ => true
 
-/-- class of KF-C15-c (one part): a `True` entry of `required_parts` on a part whose value is the
-    empty text — the code tests `value is None`, so the rule cannot fail there (and never fails
-    on the six tuple parts) -/
-def requiredTrueOnEmpty (rule : Option PartRule) (part : PartVal) : Bool :=
-  rule == some .always && part == .str []
-
-/-- class of KF-C15-d (one part): an empty collection as `required_parts` entry — the code's
-    `elif required:` skips it -/
-def requiredEmptyCollection (rule : Option PartRule) (part : PartVal) : Bool :=
-  rule == some (.oneOf []) && part != .raises
-
-/-- some known part of the URL is in the class of KF-C15-c / KF-C15-d -/
-def httpQuirk (allParts : List Str) (required : List (Str × PartRule)) (table : List (Str × PartVal)) :
-    Bool :=
-  allParts.any (fun k => match table.lookup k with
-    | some v => requiredTrueOnEmpty (required.lookup k) v || requiredEmptyCollection (required.lookup k) v
-    | none => false)
-
 /-- HTTPURLValidator, from its docstring, for a URL that parses: every known part (`all_parts`)
     is readable, satisfies its entry of `required_parts` and does not violate its entry of
     `forbidden_parts`.  No promise when `all_parts` names something outside the vocabulary. -/
@@ -386,20 +368,12 @@ def httpNoValue (v : V) (e : View) (d : Bool) : Bool :=
 /-- **the open findings as one class**: the (validator, view, promised verdict) triples on which
     the code is known not to decide the docstring's predicate —
     KF-C15-a (`HTTPURLValidator`, no value, promised False),
-    KF-C15-c / -d (`httpQuirk`: a `True` entry of `required_parts` on a part that is the empty
-    text; an empty collection as entry),
     KF-C15-g (`URLValidator`: no scheme, `''` listed in `allowed_schemes`, promised True).
+    (KF-C15-c / -d, the `required_parts` readings, are repaired in /repo and left this class.)
     `decides_partial` proves the property for everything outside this class. -/
 def excluded (v : V) (e : View) (d : Bool) : Bool :=
   match v with
-  | .httpURL ap req _ =>
-    match e.value with
-    | .none => !d
-    | .str url =>
-      (match e.lib.urlparse url with
-       | .ok p => httpQuirk ap req (partTable p)
-       | _ => false)
-    | _ => false
+  | .httpURL _ _ _ => e.value == .none && !d
   | .urlValidator s _ =>
     match e.value with
     | .str value => d && emptySchemeListed s (e.lib.urlparse (pyStrip value))
